@@ -465,7 +465,11 @@ class CallMixin:
                 a = self.seq_to_arr(st, a)
             return zint(a.n)
         if name == "pw2":
-            return zint(smt.pow2_term(self.as_int(st, self.ev_spec(st, A[0]))))
+            e = self.as_int(st, self.ev_spec(st, A[0]))
+            t = smt.pow2_term(e)
+            if not z3.is_int_value(t) and not st.bound:
+                st.axioms.append(z3.Implies(e >= 0, t >= 1))
+            return zint(t)
         if name == "cls_name":
             v = self.ev_spec(st, A[0])
             if isinstance(v, Z) and v.t.kind == "ref":
